@@ -99,11 +99,14 @@ def generate(rng, focus, tier="quick"):
         n_assets = rng.randrange(5, 9)
         max_pf = rng.randrange(4, 7)
     assets = ASSETS[:n_assets]
+    if rng.random() < 0.35:
+        # legal but unusual symbols: lower case, dots, a percent sign, blanks inside
+        assets = rng.sample(["EQ:spy", "EQ:Brk.b", "EQ:A%B", "EQ:AAA", "EQ:aaa", "EQ:X Y", "EQ:100%", "EQ:Q"], min(n_assets, 8))
     # portfolio ids: usually p1, p2, ... in creation order; sometimes names whose sorted order differs from the
     # order of creation
     pids_run = list(PIDS_DEFAULT)
     if rng.random() < 0.5:
-        pids_run = rng.sample(["b", "a", "p10", "p2", "Z", "m", "p1", "0009", "7", "12"], 6)
+        pids_run = rng.sample(["b", "a", "p10", "p2", "Z", "m", "p1", "0009", "7", "12", "60%/40%", "x y", "100%_eq"], 6)
     r = rng.random()
     if r < 0.3:
         fee = {"kind": "zero"}
@@ -136,8 +139,13 @@ def generate(rng, focus, tier="quick"):
         "np_qty": rng.random() < 0.2,
         "print_events": rng.random() < 0.15,      # the library's default is to print every event
         "int_ids": rng.random() < 0.5,
+        "int_quotes": rng.random() < 0.1,         # a data handler serving whole prices as numpy integers
+        "exchange_start_offset": rng.choice([0, 0, 0, -30 * DAY, 30 * DAY, 400 * DAY]),
         "int_amounts": rng.random() < 0.2,
     }
+    if cfg["int_quotes"]:
+        cfg["np_quotes"] = False
+        cfg["quotes0"] = dict((a, [float(int(q[0]) + 1), float(int(q[0]) + 3)]) for a, q in cfg["quotes0"].items())
     ops = []
     sh = {"pids": [], "now": start, "pending": 0, "held": set(), "quotes": dict(
         (a, cfg["quotes0"][a][0]) for a in assets)}
@@ -437,7 +445,7 @@ def _build(cfg):
     from qstrader.broker.fee_model.zero_fee_model import ZeroFeeModel
     from qstrader.broker.fee_model.percent_fee_model import PercentFeeModel
     s = _Sys()
-    s.qb = QuoteBook(numpy_floats=cfg.get("np_quotes", False))
+    s.qb = QuoteBook(numpy_floats=cfg.get("np_quotes", False), numpy_ints=cfg.get("int_quotes", False))
     for a, (b, k) in sorted(cfg["quotes0"].items()):
         s.qb.set(a, b, k)
     fee = cfg["fee"]
@@ -469,7 +477,8 @@ def _build(cfg):
         s.rate = frac(fee["c"]) + frac(fee["t"])
     s.fixed_fee = float(fee.get("fixed", 0.0))
     t0 = ts(cfg["start"])
-    s.exchange = SimulatedExchange(t0)
+    # the exchange object may have been built for another window than the broker (its start_dt is informational)
+    s.exchange = SimulatedExchange(ts(cfg["start"] + cfg.get("exchange_start_offset", 0)))
     s.ccy = cfg.get("ccy", "USD")
     s.broker = SimulatedBroker(t0, s.exchange, s.qb, account_id="sim", base_currency=s.ccy,
                                initial_funds=cfg["initial_funds"], fee_model=s.fee)
@@ -926,6 +935,9 @@ class Exec(object):
         return False
 
     def op_quote(self, op):
+        if self.cfg.get("int_quotes"):
+            b_ = float(int(op["bid"]) + 1)
+            op = dict(op, bid=b_, ask=b_ + 2.0)
         self.s.qb.set(op["asset"], op["bid"], op["ask"])
         self.ctx.event("quote", op["asset"], float(op["bid"]), float(op["ask"]))
         return False
